@@ -52,6 +52,43 @@ def fault_kinds(ts, world, pos, flavour):
     return kinds
 
 
+def fed_cases(ts, c, rng):
+    """Dynamic federation: `_entities(representations:)` is a root field of type [_Entity]! whose items are nullable --
+    a failing non-null field of one entity nulls that item only.  The type system handed to TLC (and to the harness,
+    which enables federation and installs an entity resolver) is the exec family plus _Entity / Query._entities."""
+    fts = json.loads(json.dumps(ts))
+    fts["federation"] = True
+    for t in ("A", "B"):
+        fts["types"][t]["key"] = "id"
+    fts["types"]["_Entity"] = {"kind": "UNION", "fields": {}, "implements": [], "members": ["A", "B"], "values": []}
+    fts["types"]["Query"]["fields"]["_entities"] = {"ty": {"k": "nn", "of": {"k": "list", "of": {"k": "named", "n": "_Entity"}}}, "outer": False, "guard": False, "gen": False}
+    def f(d, name, alias="", args=None): return {"d": d, "k": "field", "name": name, "alias": alias, "on": "", "dir": "", "args": args or []}
+    def on(d, t): return {"d": d, "k": "inline", "name": "", "alias": "", "on": t, "dir": ""}
+    def reps(ids, objs): return [{"name": "representations", "val": {"k": "list", "items": [
+        {"k": "obj", "entries": [{"key": "__typename", "val": {"k": "str", "v": objs[i]}}, {"key": "id", "val": {"k": "str", "v": i}}]} for i in ids]}}]
+    out = []
+    shapes = [(["a1", "b1", "a2"], lambda a: [f(1, "_entities", args=a), on(2, "A"), f(3, "id"), f(3, "nn"), f(3, "n"), on(2, "B"), f(3, "id"), f(3, "b"), f(1, "n")]),
+              (["a2", "a1"], lambda a: [f(1, "_entities", "e", args=a), on(2, "A"), f(3, "selfNN"), f(4, "nn"), f(3, "fnn"), on(2, "Node"), f(3, "label"), f(1, "nn")]),
+              (["b1", "a1", "b1"], lambda a: [f(1, "_entities", args=a), on(2, "Entity"), f(3, "peer"), f(4, "id"), on(2, "A"), f(3, "kidsNN"), f(4, "id"), f(2, "__typename")])]
+    for si, (ids, mk) in enumerate(shapes):
+        for k in range(2 if c.quick else 12):
+            wg = gqlgen.WorldGen(fts, random.Random(c.seed * 77 + si * 13 + k), p_null=0.1)
+            wg.dyn_lists = True
+            base = wg.world()
+            d = gqlgen.tree_from_flat(mk(reps(ids, wg.objects)), "query")
+            base["root"]["vals"]["_entities"] = {"k": "list", "items": [{"k": "ref", "id": i, "ty": wg.objects[i]} for i in ids]}
+            positions = [p for p in gqlgen.resolved_positions(fts, d, base) if p[1] != "id" and not p[1].startswith("_")]
+            out.append({"id": 0, "flavour": "dynamic", "ts": fts, "doc": d, "opIndex": 1, "vars": [], "world": base, "schedule": [], "faults": []})
+            for pos in positions:
+                out.append({"id": 0, "flavour": "dynamic", "ts": fts, "doc": d, "opIndex": 1, "vars": [], "world": inject(base, pos, "err"), "schedule": [],
+                            "faults": [list(pos) + ["err"]]})
+            pairs = [(a, b) for i, a in enumerate(positions) for b in positions[i + 1:]]
+            for a, b in (rng.sample(pairs, min(len(pairs), 2 if c.quick else 10))):
+                out.append({"id": 0, "flavour": "dynamic", "ts": fts, "doc": d, "opIndex": 1, "vars": [], "world": inject(inject(base, a, "err"), b, "err"),
+                            "schedule": [], "faults": [list(a) + ["err"], list(b) + ["err"]]})
+    return out
+
+
 def body(c):
     ts = json.load(open(execcheck.SCHEMA))
     rng = random.Random(c.seed)
@@ -127,6 +164,8 @@ def body(c):
     if len(cases) > case_cap:
         cases = rng.sample(cases, case_cap)
         exhaustive = False
+    fed = fed_cases(ts, c, rng)
+    cases += fed
     obs, verdicts = execcheck.run_cases(c, cases, "errors")
     for o in obs:
         c.count_case({"t": o["text"], "v": o["vars"], "f": o["flavour"], "w": vlib.chash(o["world"])}, nontrivial=len(o["obs"]["errors"]) > 0 or verdicts[o["id"]] != "ok")
